@@ -26,14 +26,16 @@ Record xstate := {
   x_next : N;                  (* next fresh id *)
   x_workers : nat;
   x_probes : list N;           (* log: hash of every probe started, oldest first *)
+  x_info : list N;             (* jobs the scrape manager has a client for (scrape.Manager.GetJob <> nil) *)
 }.
 Definition x_init (workers : nat) : xstate :=
-  {| x_table := []; x_objs := []; x_queue := []; x_inflight := []; x_timers := []; x_next := 1; x_workers := workers; x_probes := [] |}.
+  {| x_table := []; x_objs := []; x_queue := []; x_inflight := []; x_timers := []; x_next := 1; x_workers := workers; x_probes := [];
+     x_info := [0; 1; 2]%N |}.
 
 Definition obj (s : xstate) (id : N) : entry := match afind id (x_objs s) with Some e => e | None => new_entry 0 0 end.
 Definition set_obj (s : xstate) (id : N) (e : entry) : xstate :=
   {| x_table := x_table s; x_objs := aset id e (x_objs s); x_queue := x_queue s; x_inflight := x_inflight s;
-     x_timers := x_timers s; x_next := x_next s; x_workers := x_workers s; x_probes := x_probes s |}.
+     x_timers := x_timers s; x_next := x_next s; x_workers := x_workers s; x_probes := x_probes s; x_info := x_info s |}.
 
 (* free workers take queued entries (eagerly, FIFO) *)
 Fixpoint dispatch (fuel : nat) (s : xstate) : xstate :=
@@ -47,11 +49,22 @@ Fixpoint dispatch (fuel : nat) (s : xstate) : xstate :=
       then
         (* the worker probes what it took from the queue only if that object is still the tracked one *)
         if match afind (e_hash (obj s id)) (x_table s) with Some id' => N.eqb id' id | None => false end
-        then dispatch f {| x_table := x_table s; x_objs := x_objs s; x_queue := rest; x_inflight := x_inflight s ++ [id];
-                           x_timers := x_timers s; x_next := x_next s; x_workers := x_workers s;
-                           x_probes := x_probes s ++ [e_hash (obj s id)] |}
+        then
+          if existsb (N.eqb (e_job (obj s id))) (x_info s)
+          then dispatch f {| x_table := x_table s; x_objs := x_objs s; x_queue := rest; x_inflight := x_inflight s ++ [id];
+                             x_timers := x_timers s; x_next := x_next s; x_workers := x_workers s;
+                             x_probes := x_probes s ++ [e_hash (obj s id)]; x_info := x_info s |}
+          else
+            (* exploreOnce: no scrape info for the job - the attempt fails at once (nothing is sent to the target), it
+               is recorded as a failed probe and the retry timer is armed *)
+            let e := obj s id in
+            dispatch f {| x_table := x_table s;
+                          x_objs := aset id {| e_hash := e_hash e; e_job := e_job e; e_exploring := e_exploring e; e_health := Bad;
+                                               e_series := e_series e; e_total := e_total e; e_err := true; e_window := e_window e |} (x_objs s);
+                          x_queue := rest; x_inflight := x_inflight s; x_timers := x_timers s ++ [id];
+                          x_next := x_next s; x_workers := x_workers s; x_probes := x_probes s; x_info := x_info s |}
         else dispatch f {| x_table := x_table s; x_objs := x_objs s; x_queue := rest; x_inflight := x_inflight s;
-                           x_timers := x_timers s; x_next := x_next s; x_workers := x_workers s; x_probes := x_probes s |}
+                           x_timers := x_timers s; x_next := x_next s; x_workers := x_workers s; x_probes := x_probes s; x_info := x_info s |}
       else s
     end
   end.
@@ -63,7 +76,8 @@ Inductive x_op :=
 | XUpdate (jobs : list (N * list N))       (* job -> hashes of its targets *)
 | XApplyConfig (jobs : list N)             (* the jobs of the new configuration *)
 | XDone (h : N) (r : probe_result)         (* the oldest in-flight probe of hash h finishes *)
-| XTimers.                                 (* every pending retry timer fires (oldest first) *)
+| XTimers                                  (* every pending retry timer fires (oldest first) *)
+| XJobInfo (jobs : list N).                (* scrape.Manager.ApplyConfig: the jobs it has a client for from now on *)
 
 (* Get *)
 Definition do_get (s : xstate) (h : N) : xstate :=
@@ -76,7 +90,7 @@ Definition do_get (s : xstate) (h : N) : xstate :=
       let s1 := set_obj s id {| e_hash := e_hash e; e_job := e_job e; e_exploring := true; e_health := e_health e;
                                 e_series := e_series e; e_total := e_total e; e_err := e_err e; e_window := e_window e |} in
       {| x_table := x_table s1; x_objs := x_objs s1; x_queue := x_queue s1 ++ [id]; x_inflight := x_inflight s1;
-         x_timers := x_timers s1; x_next := x_next s1; x_workers := x_workers s1; x_probes := x_probes s1 |}
+         x_timers := x_timers s1; x_next := x_next s1; x_workers := x_workers s1; x_probes := x_probes s1; x_info := x_info s1 |}
   end.
 (* what Get returns: None = nil *)
 Definition get_view (s : xstate) (h : N) : option (health * Z * Z * bool) :=
@@ -90,24 +104,24 @@ Definition update_visit (old : amap N) (acc : xstate) (jh : N * N) : xstate :=
   let (job, h) := jh in
   match afind h old with
   | Some id => {| x_table := aset h id (x_table acc); x_objs := x_objs acc; x_queue := x_queue acc; x_inflight := x_inflight acc;
-                  x_timers := x_timers acc; x_next := x_next acc; x_workers := x_workers acc; x_probes := x_probes acc |}
+                  x_timers := x_timers acc; x_next := x_next acc; x_workers := x_workers acc; x_probes := x_probes acc; x_info := x_info acc |}
   | None =>
     let id := x_next acc in
     {| x_table := aset h id (x_table acc); x_objs := aset id (new_entry h job) (x_objs acc); x_queue := x_queue acc;
        x_inflight := x_inflight acc; x_timers := x_timers acc; x_next := x_next acc + 1; x_workers := x_workers acc;
-       x_probes := x_probes acc |}
+       x_probes := x_probes acc; x_info := x_info acc |}
   end.
 Definition do_update (s : xstate) (jobs : list (N * list N)) : xstate :=
   let pairs := flat_map (fun jl => map (fun h => (fst jl, h)) (snd jl)) jobs in
   fold_left (update_visit (x_table s)) pairs
             {| x_table := []; x_objs := x_objs s; x_queue := x_queue s; x_inflight := x_inflight s; x_timers := x_timers s;
-               x_next := x_next s; x_workers := x_workers s; x_probes := x_probes s |}.
+               x_next := x_next s; x_workers := x_workers s; x_probes := x_probes s; x_info := x_info s |}.
 
 (* ApplyConfig: entries of removed jobs leave the table *)
 Definition do_apply (s : xstate) (jobs : list N) : xstate :=
   {| x_table := filter (fun hi => existsb (N.eqb (e_job (obj s (snd hi)))) jobs) (x_table s);
      x_objs := x_objs s; x_queue := x_queue s; x_inflight := x_inflight s; x_timers := x_timers s;
-     x_next := x_next s; x_workers := x_workers s; x_probes := x_probes s |}.
+     x_next := x_next s; x_workers := x_workers s; x_probes := x_probes s; x_info := x_info s |}.
 
 Fixpoint remove_first (id : N) (l : list N) : list N :=
   match l with [] => [] | x :: r => if N.eqb x id then r else x :: remove_first id r end.
@@ -129,7 +143,7 @@ Definition finish_probe (s : xstate) (id : N) (r : probe_result) : xstate :=
   let s1 := set_obj s id e' in
   {| x_table := x_table s1; x_objs := x_objs s1; x_queue := x_queue s1; x_inflight := remove_first id (x_inflight s1);
      x_timers := match r with PFail => x_timers s1 ++ [id] | POk _ _ => x_timers s1 end;
-     x_next := x_next s1; x_workers := x_workers s1; x_probes := x_probes s1 |}.
+     x_next := x_next s1; x_workers := x_workers s1; x_probes := x_probes s1; x_info := x_info s1 |}.
 
 Definition do_done (s : xstate) (h : N) (r : probe_result) : xstate :=
   match find (fun id => N.eqb (e_hash (obj s id)) h) (x_inflight s) with
@@ -143,7 +157,7 @@ Definition fire (s : xstate) (id : N) : xstate :=
   let tracked := match afind (e_hash (obj s id)) (x_table s) with Some id' => N.eqb id' id | None => false end in
   {| x_table := x_table s; x_objs := x_objs s; x_queue := if tracked then x_queue s ++ [id] else x_queue s;
      x_inflight := x_inflight s; x_timers := remove_first id (x_timers s);
-     x_next := x_next s; x_workers := x_workers s; x_probes := x_probes s |}.
+     x_next := x_next s; x_workers := x_workers s; x_probes := x_probes s; x_info := x_info s |}.
 Definition do_timers (s : xstate) : xstate := fold_left fire (x_timers s) s.
 
 Definition x_step (s : xstate) (op : x_op) : xstate :=
@@ -153,6 +167,9 @@ Definition x_step (s : xstate) (op : x_op) : xstate :=
           | XApplyConfig jobs => do_apply s jobs
           | XDone h r => do_done s h r
           | XTimers => do_timers s
+          | XJobInfo jobs => {| x_table := x_table s; x_objs := x_objs s; x_queue := x_queue s; x_inflight := x_inflight s;
+                                x_timers := x_timers s; x_next := x_next s; x_workers := x_workers s; x_probes := x_probes s;
+                                x_info := jobs |}
           end).
 Definition x_run (s : xstate) (ops : list x_op) : xstate := fold_left x_step ops s.
 
